@@ -942,3 +942,53 @@ Proof.
 Qed.
 
 End Statements.
+
+(* ================================================================ the property in one statement *)
+Section Headline.
+Variable capdb : N -> capture.
+Variable merge : list file -> list entry.
+Hypothesis merge_lookup : forall fs id, find_ent id (merge fs) = lookup_vis fs id.
+Hypothesis merge_sub : forall fs e, In e (merge fs) -> In e (ents_of fs).
+Hypothesis merge_nodup : forall fs, files_ok fs -> NoDup (map e_id (merge fs)).
+
+Lemma all_streams_sub : forall fs e, In e (all_streams fs) -> In e (ents_of fs).
+Proof. exact merge_ents_sub. Qed.
+
+(* what AllStreams over a file list returns, when the list satisfies the invariant for the captures P *)
+Lemma all_streams_answer : forall P fs, spec_ok capdb P fs -> ids_ok fs -> files_ok fs ->
+  (forall e, In e (all_streams fs) ->
+     in_caps capdb P (e_flow e) = true /\ e_ver e = total_bytes capdb P (e_flow e)) /\
+  (forall fl, in_caps capdb P fl = true -> exists e, In e (all_streams fs) /\ e_flow e = fl) /\
+  NoDup (map e_flow (all_streams fs)).
+Proof.
+  intros P fs [S1 S2] I W. split; [|split].
+  - intros e H. apply (all_streams_lookup fs e W) in H. eapply S1; eauto.
+  - intros fl H. destruct (S2 fl H) as (e & L & F). exists e. split; [|exact F].
+    apply (all_streams_lookup fs e W). exact L.
+  - apply (nodup_map_transfer _ _ _ e_id e_flow).
+    + apply merge_ents_nodup. exact W.
+    + intros x y Hx Hy E. apply (I x y); auto using all_streams_sub.
+Qed.
+
+Theorem view_answers : forall acts1 acts2 v,
+  let st1 := fold_left (step capdb false merge) acts1 init in
+  let st2 := fold_left (step capdb false merge) (acts1 ++ AView v :: acts2) init in
+  view_of v (views st1) = None -> (forall a, In a acts2 -> a <> ARelease v) ->
+  exists s, view_of v (views st2) = Some s /\
+    (forall e, In e (all_streams s) ->
+       in_caps capdb (processed st1) (e_flow e) = true /\
+       e_ver e = total_bytes capdb (processed st1) (e_flow e)) /\
+    (forall fl, in_caps capdb (processed st1) fl = true -> exists e, In e (all_streams s) /\ e_flow e = fl) /\
+    NoDup (map e_flow (all_streams s)) /\
+    (forall f, In f s -> In (f_uid f) (disk st2)).
+Proof.
+  intros acts1 acts2 v st1 st2 Hn Hr.
+  destruct (view_snapshot capdb merge acts1 acts2 v Hn Hr) as [V D].
+  exists (indexes st1). split; [exact V|].
+  pose proof (run_inv10 capdb merge merge_lookup merge_sub false acts1) as I.
+  pose proof (run_files_ok capdb merge merge_lookup merge_sub false merge_nodup acts1) as W.
+  destruct (all_streams_answer (processed st1) (indexes st1) (v_spec _ _ _ I) (v_ids _ _ _ I) W) as (A & B & C).
+  split; [exact A|]. split; [exact B|]. split; [exact C|exact D].
+Qed.
+
+End Headline.
